@@ -442,6 +442,15 @@ def check(repo: Repo, run: Run) -> None:
                f"{' and '.join(('' if v else 'not ') + sym.pretty(a)[:70] for a, v in ex[:3])}: on the other paths the "
                "enclosing START..END windows lose a record of their thread", line=line)
 
+    from .. import shared as _shared
+    diag = _shared.diagnostic_slots(repo, tp)
+
+    # (bookkeeping attributes nobody reads - counters, statistics - are not window state)
+    def _is_diag(e_):
+        r_ = e_.path if e_.path is not None else e_.base
+        while r_ is not None and r_.op in ("sub", "mut", "call"):
+            r_ = r_.a[0] if r_.op != "call" else (r_.a[0].a[0] if r_.a[0].op == "attr" else None)
+        return r_ is not None and r_.op == "attr" and r_.a[0] == SELF and r_.a[1] in diag
     # ---- K3 START
     fn, rec, ev, st, tid, eid, win = common(start_m)
     resets = [e for e in rec.effects if e.kind == "sub-store" and e.key == eid
@@ -470,6 +479,12 @@ def check(repo: Repo, run: Run) -> None:
 
     # ---- K4 END
     fn, rec, ev, st, tid, eid, win = common(end_m)
+    # `windows.pop(code, None)` with the result tested against None (often in one walrus expression) folds the "is this code
+    # open" test and the removal into one step: a form of the END action these rules do not describe
+    k4_undecided = any(e.kind == "mut-call" and e.key == "pop" and len(e.args) == 2 for e in rec.effects)
+    if k4_undecided:
+        run.floor_failures.append(f"C04/K4: {end_m} removes the window with pop(code, <default>): the END action is not decided")
+    ob4 = (lambda *a_, **k_: None) if k4_undecided else run.ob
     guard_tid = T("cmp", ("in", tid, st))
     guard_eid = T("cmp", ("in", eid, win))
     unguarded = []
@@ -477,7 +492,7 @@ def check(repo: Repo, run: Run) -> None:
         a = guards.assumptions(e.pc)
         if not (render.assume_lookup(a, guard_tid) is True and render.assume_lookup(a, guard_eid) is True):
             unguarded.append(e)
-    run.ob("K4", MOD, f"TracesParser.{end_m}", "no mutation unless thread known and code open", not unguarded,
+    ob4("K4", MOD, f"TracesParser.{end_m}", "no mutation unless thread known and code open", not unguarded,
            "" if not unguarded else
            f"{unguarded[0].kind} {unguarded[0].key} at line {unguarded[0].lineno} happens without both `event.tid in state` "
            f"and `event.eventid in state[tid]` established: a stray END changes state", line=fn.lineno)
@@ -485,20 +500,21 @@ def check(repo: Repo, run: Run) -> None:
     okg = any(render.assume_lookup(guards.assumptions(r.pc), guard_tid) is False
               or render.assume_lookup(guards.assumptions(r.pc), guard_eid) is False
               or _is_negated_guard(r.pc, guard_tid, guard_eid) for r in none_rets)
-    run.ob("K4", MOD, f"TracesParser.{end_m}", "stray END returns None", okg,
+    ob4("K4", MOD, f"TracesParser.{end_m}", "stray END returns None", okg,
            "END has no path returning None for an unknown thread / a code that is not open", nontrivial=False)
     loops = append_all_loops(rec, st, tid, win, ev)
     okl = len(loops) == 1 and not loops[0][2]
-    run.ob("K4", MOD, f"TracesParser.{end_m}", "append to every open window of the thread", okl,
+    ob4("K4", MOD, f"TracesParser.{end_m}", "append to every open window of the thread", okl,
            "END does not append the event (unconditionally, once) to every open window of its thread (its own included)",
            line=fn.lineno)
-    reach_ob("K4", end_m, rec, loops, st, tid, eid, True, "an END record", fn.lineno)
+    if not k4_undecided:
+        reach_ob("K4", end_m, rec, loops, st, tid, eid, True, "an END record", fn.lineno)
     # the window is removed by windows.pop(eventid), or read first and removed by `del windows[eventid]`
     pops = [e for e in rec.effects if ((e.kind == "mut-call" and e.key == "pop") or e.kind == "del-sub")
             and (winlike(e.path, st, tid) or winlike(e.base, st, tid))]
     okp = len(pops) == 1 and not pops[0].loops and \
         (pops[0].args == (eid,) if pops[0].kind == "mut-call" else pops[0].key == eid)
-    run.ob("K4", MOD, f"TracesParser.{end_m}", "window popped by event.eventid", okp,
+    ob4("K4", MOD, f"TracesParser.{end_m}", "window popped by event.eventid", okp,
            "" if okp else "END does not pop exactly state[tid][event.eventid]: the window stays open (later ENDs re-emit it) or "
                           "another window is closed", line=fn.lineno)
     own_after = []
@@ -509,7 +525,7 @@ def check(repo: Repo, run: Run) -> None:
             taken = T("call", (T("attr", (pops[0].base, "pop")), (eid,), ()))
             own_after = [e for e in rec.effects if e.kind == "mut-call" and e.key == "append" and e.args == (ev,) and not e.loops
                          and e.seq > pops[0].seq and (e.base == taken or e.path == taken) and e.pc == pops[0].pc]
-        run.ob("K4", MOD, f"TracesParser.{end_m}", "append precedes pop", first_then or len(own_after) == 1,
+        ob4("K4", MOD, f"TracesParser.{end_m}", "append precedes pop", first_then or len(own_after) == 1,
                "the window is popped before the END record is appended: the trace does not end with its END", line=fn.lineno)
     if okp:
         popped = T("call", (T("attr", (pops[0].base, "pop")), (eid,), ())) if pops[0].kind == "mut-call" else \
@@ -520,7 +536,7 @@ def check(repo: Repo, run: Run) -> None:
         want = interp.run(tp.module, pel, {"self": SELF, pel.args.args[1].arg: popped}, self_cls=tp).return_term()
         live = [r for r in rec.returns if r.kind == "return" and r.value != const(None)]
         same = len(live) == 1 and sym.canon(live[0].value) == sym.canon(want)
-        run.ob("K4", MOD, f"TracesParser.{end_m}", "returns parse_event_list(popped window)", same,
+        ob4("K4", MOD, f"TracesParser.{end_m}", "returns parse_event_list(popped window)", same,
                "" if same else "END does not return parse_event_list(<the popped window>) and nothing else",
                facts={"returned": sym.pretty(live[0].value)[:200] if live else None}, line=fn.lineno)
 
@@ -528,7 +544,7 @@ def check(repo: Repo, run: Run) -> None:
     fn, rec, ev, st, tid, eid, win = common(all_m)
     loops = append_all_loops(rec, st, tid, win, ev)
     okl = len(loops) == 1 and not loops[0][2]
-    others = [e for e in rec.effects if not (loops and e is loops[0][1])]
+    others = [e for e in rec.effects if not (loops and e is loops[0][1]) and not _is_diag(e)]
     own_slots = [e for e in others if e.kind == "attr-store" and (e.path or e.base) == SELF]
     if own_slots and all(e in own_slots or (e.kind == "mut-call" and e.key in ("setdefault", "append")) for e in others):
         # the action remembers something of its own from one record to the next (a look-up cache): what it appends to is then
@@ -659,7 +675,8 @@ def check(repo: Repo, run: Run) -> None:
                f"nested records a decoder hands back - whose other records make that condition false yields no trace",
                line=live[0].lineno, witness="a window whose last record differs from its first in that respect")
     run.ob("K9", MOD, "TracesParser.parse_event_list", "no state change",
-           not [e for e in rec.effects if e.func.endswith(".parse_event_list")], "parse_event_list mutates state", nontrivial=False)
+           not [e for e in rec.effects if e.func.endswith(".parse_event_list") and not _is_diag(e)], "parse_event_list mutates state",
+           nontrivial=False)
 
     # ---- K13 every decoder function is in the table: a `handle_<code>` function of a family module that no row of any table
     # names and no other function refers to is a decoder that lost its row (a duplicate value in an enum the table is derived
